@@ -85,6 +85,21 @@ CLAIMED = {
     note='eigh outputs are fresh ascending values (free contract), pow uninterpreted, absolute ridge (power iteration not encoded); d <= 7, |r| <= 3; the claim that '
          'the denoted matrix inverts A+ridge I on the kept directions needs orthonormality and is declined.',
     design='§3 C10', technique='jaxpr->SMT symbolic evaluation (index terms + polynomial identities), stubbed eigh, z3'),
+  'C09': dict(
+    text='Bounded SMT verification (exact reals) of the frequent-directions step identities on the jaxprs of the three real step functions (tearfree Sketchy, OCO, '
+         'Distributed Shampoo FD root) with svd/qr stubbed: SVD input satisfies M M^T = b V diag(l) V^T + G G^T, new eigenvalues s_i^2 - s_k^2 (clamped, >= 0), new '
+         'directions = top-k singular vectors or zero, escaped mass t\' = b t + s_k^2, stored inverse roots (l\'+t\'+eps)^(-1/p), for all sketch states and gradients; '
+         'found (now fixed) the sqrt(b) discount of the escaped mass in Sketchy. Replays iterate the real step over histories against the exact float64 covariance.',
+    note='The PSD bracket itself is NOT a solver query (z3 unknown): it follows from the identities by the textbook FD lemma stated in evidence; SVD contract = ordering '
+         '(+ unit-norm left vectors for DS); d <= 5, k <= 3; float safeguards of the DS routine outside the exact-SVD case not covered.',
+    design='§3 C09', technique='jaxpr->SMT symbolic evaluation with contract-stubbed SVD/QR, z3 (NRA)'),
+  'C16': dict(
+    text='Bounded SMT verification (exact reals, delta and lr symbolic) of one inductive step of each real OCO update: OGD / diagonal AdaGrad closed forms, sketched '
+         'methods keep the last sketch row zero, e\'^2 = s^2 - rho^2, alpha\' = alpha + factor rho^2 (S-AdaGrad: alpha = delta + escaped mass, unchanged when rho = 0), '
+         'and each step equals its documented eigen-form over the SVD outputs.',
+    note='The clause "lossless S-AdaGrad equals full-matrix AdaGrad" is declined as a solver claim (matrix-function identity modulo orthonormality: z3 unknown); it is '
+         'only exercised numerically in replays. SVD stub contract: ordering; dimension <= 4, sketch <= 3.',
+    design='§3 C16', technique='jaxpr->SMT symbolic evaluation, inductive step, stubbed SVD, z3'),
 }
 NA = {
   'C07': 'decided by tracing each configuration (abstract evaluation), no input/step/state variable is left for a solver to range over; '
